@@ -43,6 +43,12 @@ def m1(ctx):
             continue
         if key == UNLOCK and m == 'store':
             continue
+        if fam.is_delegate(ctx.facts, key):
+            # a private helper holding the one atomic operation (`fn acquire_once(&self) -> Result<bool, bool>`, `fn release(&self)`):
+            # it runs as part of its callers, whose paths (with the helper spliced in) are checked below
+            os_ = fam.owners(ctx, key)
+            if os_ and ((os_ <= {TRY} and m in ('compare_exchange', 'compare_exchange_weak', 'swap')) or (os_ <= {UNLOCK} and m == 'store')):
+                continue
         ctx.violate(key, None, 'RawMutexLock.locked accessed (%s) outside try_lock/unlock' % m, at=at, sig='locked-access:' + m)
     b = need(ctx, TRY)
     if b is not None:
@@ -110,10 +116,24 @@ def m3(ctx):
     ctx.oblige(1, sample='try_lock callees: %s' % sorted(set(b.callee_names())))
     if b.has_cycle():
         ctx.violate(TRY, None, 'try_lock contains a loop', sig='cycle')
-    for n in b.callee_names():
-        if atomic_method(n) or n in ('std::result::Result::is_ok', 'std::result::Result::is_err'):
-            continue
-        ctx.violate(TRY, None, 'try_lock calls %s' % n, sig='callee:' + n)
+    seen = set()
+
+    def scan(body, depth=0):
+        for bb, t in body.all_calls():
+            fn = t.get('fn')
+            n = canon(fn['path']) if fn else '<indirect>'
+            if atomic_method(n) or n in ('std::result::Result::is_ok', 'std::result::Result::is_err'):
+                continue
+            c = ctx.facts.bodies.get(fn['path']) if fn and fn.get('local') else None
+            if c is not None and fam.is_delegate(ctx.facts, c.key) and depth < 3 and c.key not in seen:
+                # a private helper: what it calls counts as called by try_lock
+                seen.add(c.key)
+                if c.has_cycle():
+                    ctx.violate(TRY, None, 'try_lock calls %s, which contains a loop' % n, sig='callee-cycle:' + n)
+                scan(c, depth + 1)
+                continue
+            ctx.violate(TRY, None, 'try_lock calls %s' % n, sig='callee:' + n)
+    scan(b)
 
 
 @rule('M4', ['C17', 'C06'], 'lock returns only once acquired; spin_cond cannot return unless cond() was true', skip_std_mutex=True)
@@ -285,11 +305,12 @@ def cond_until(facts, key):
     if key in cache:
         return cache[key]
     cache[key] = False
-    if not any(n in FN_CALLS for n in b.callee_names()):
+    if not any(n in FN_CALLS for n in b.callee_names()) and not any(
+            t_.get('fn') and t_['fn'].get('local') and cond_like(facts, t_['fn']['path']) for _, t_ in b.all_calls()):
         return False
     if b.locals[0]['ty'] != '()':
         return False
-    removed, ncond = cond_true_edges(b, None)
+    removed, ncond = cond_true_edges(b, facts)
     if ncond == 0:
         return False
     reach = b.reachable(0, removed_edges=removed)
